@@ -20,6 +20,7 @@ use std::collections::BTreeMap;
 
 pub fn run_case(ctx: &Ctx, case: u64, ev: &mut Ev) {
     let mut rng = Rng::derive(ctx.seed, "C07", case);
+    rng.big = ctx.tier == crate::Tier::Thorough && rng.chance(0.2);
     if rng.chance(0.65) {
         run_pair(case, &mut rng, ev, "c07", false);
     } else {
@@ -74,7 +75,7 @@ pub fn run_pair(case: u64, rng: &mut Rng, ev: &mut Ev, prefix: &str, partial_bia
     let op = *rng.pick(&["add", "sub", "mul", "div"]);
     let mk = |rng: &mut Rng, partial: bool| -> TreeCfg {
         let mut c = TreeCfg::basic(2, n, m, rg);
-        c.max_depth = rng.below(4);
+        c.max_depth = rng.below(if rng.big { 6 } else { 4 });
         c.allow_leaf_root = true;
         c.p_missing = if partial { 0.3 } else { 0.0 };
         c.p_contra = if rng.chance(0.2) { 0.4 } else { 0.0 };
